@@ -121,6 +121,9 @@ func (c *SimConn) Read(b []byte) (int, error) {
 		if c.isClosed() {
 			return 0, net.ErrClosed
 		}
+		if len(b) == 0 {
+			return 0, nil // as a socket: at once, whatever there is to read
+		}
 		h := c.in
 		h.mu.Lock()
 		if h.reset {
